@@ -2180,6 +2180,14 @@ fn prop_corpus(s: Stream) -> Vec<KCase> {
             let mut c = kcase(b, "c04-restricted-turn-edge-oriented");
             c.bf_ok = false;
             v.push(c);
+            // Yen, the junction of root and spur: 0 -e0-> 1, then three ways on to 3 (e1 e2: 2, e3 e4: 4, e5 e6: 6);
+            // the turn e0 -> e3 is restricted.  The spur search from 1 starts without a previous edge, so only the
+            // check of the WHOLE candidate sees that turn: the routes are e0 e1 e2 and e0 e5 e6, never e0 e3 e4
+            let mut b = base_case(vec![(0, 1, 1.0), (1, 2, 1.0), (2, 3, 1.0), (1, 4, 2.0), (4, 3, 2.0), (1, 5, 3.0), (5, 3, 3.0)], 6, 0, 3);
+            b.frontier = vec![Fr::TurnRestriction(vec![(0, 3)])];
+            let mut c = ycase(b, 3, "c04-yen-restricted-turn-at-spur-junction");
+            c.bf_ok = false;
+            v.push(c);
         }
         Stream::C10 => {
             // Yen: 0 -> 1 -> 2 -> 3 -> 4, a six-edge detour from 1, a two-edge detour from 2; an iteration limit
